@@ -171,15 +171,16 @@ impl Reporter {
     let mut known_cnt = 0u64;
     let mut lines = vec![];
     let mut summary = vec![];
+    let mut known_lines: BTreeMap<String, (u64, u64, String)> = BTreeMap::new();
     for (i, (sig, g)) in groups.iter().enumerate() {
       let replay = json!({"property": self.prop, "sig": sig, "count_in_run": g.count, "case": g.example});
       match self.is_known(sig) {
         Some(k) => {
           known_cnt += g.count;
-          lines.push(format!(
-            "KNOWN-FINDING: property={} sig={} cases={} {}",
-            self.prop, sig, g.count, k.what
-          ));
+          // one KNOWN-FINDING line per LISTED finding (an entry may cover several signatures)
+          let e = known_lines.entry(k.sig.clone()).or_insert((0u64, 0u64, k.what.clone()));
+          e.0 += g.count;
+          e.1 += 1;
           summary.push(json!({"sig": sig, "known": true, "count": g.count, "example": g.example}));
         }
         None => {
@@ -200,6 +201,12 @@ impl Reporter {
           summary.push(json!({"sig": sig, "known": false, "count": g.count, "example": g.example}));
         }
       }
+    }
+    for (ksig, (cases, sigs, what)) in &known_lines {
+      lines.push(format!(
+        "KNOWN-FINDING: property={} sig={} cases={} distinct_sigs={} {}",
+        self.prop, ksig, cases, sigs, what
+      ));
     }
     let wall = self.start.elapsed().as_secs_f64();
     if let Some(obj) = coverage.as_object_mut() {
